@@ -44,6 +44,8 @@ type clusterCase struct {
 	Special       string          `json:"special,omitempty"`
 	InitialTarget byte            `json:"initial_target_first_byte"`
 	FreshGap      int             `json:"fresh_checkpoint_gap,omitempty"`
+	// MaxOut overrides the outbound cap (0 = same as peer_cap)
+	MaxOut int `json:"max_outbound,omitempty"`
 	// HeaderBatch > 0: the winner is held by an honest lab peer (index N) that
 	// answers SendHeaders with at most HeaderBatch headers and the correct
 	// remaining count; it announces its tip once and never re-announces
@@ -106,6 +108,8 @@ func runC12(r *mon.Run, replay string) {
 	r.Floor("manager_calls_audited:AddValidatedV2Blocks", 5)
 	r.Floor("reorgs_observed", 10)
 	r.Floor("short_header_batches_served", int64(r.Pick(12, 200)))
+	r.Floor("accepted_connections_within_caps_checked", int64(r.Pick(40, 600)))
+	r.Floor("clusters_with_tight_inbound_cap_and_outbound_connection", int64(r.Pick(4, 50)))
 }
 
 var c12FreshGaps = []int{3, 9, 10, 11, 12, 13, 14, 15, 16, 20, 23, 24, 40}
@@ -159,6 +163,8 @@ func c12SpecialFor(i int) string {
 	switch i % 10 {
 	case 1: // sync distance larger than one header batch (honest lab peer serving short SendHeaders batches)
 		return "shortheaders"
+	case 2: // tight inbound cap on nodes that also hold outbound connections; every edge is a bridge
+		return "tightcap"
 	case 3: // the winner's branch length sweeps the 100-block request split
 		return "long"
 	case 5: // long trunk above the require height, some nodes bootstrapped from a checkpoint
@@ -277,7 +283,71 @@ func genShortHeaders(r *mon.Run, stream uint64) (clusterCase, *chainlab.Tree, []
 	return cc, t, tips, make([]*chainlab.Node, len(tips))
 }
 
+// genTightCap: a tree of nodes in which every non-root node dials its parent
+// and nobody else dials anybody (no discovery, the harness only re-dials in the
+// designed direction), so every edge is a bridge. The inbound cap equals the
+// number of children (1: a chain s1 <- s2 <- s3 ..., 2: a binary in-tree), i.e.
+// every inner node is exactly at its inbound limit while it also holds an
+// outbound connection to its parent. The heaviest chain sits at the root or at
+// the deepest leaf.
+func genTightCap(r *mon.Run, stream uint64) (clusterCase, *chainlab.Tree, []*chainlab.Node, []*chainlab.Node) {
+	rng := r.RNG(stream)
+	regime := []string{"mix", "mix", "v2only", "v1only"}[rng.IntN(4)]
+	p := chainlab.RandomParams(regime, rng)
+	env := chainlab.NewEnv(p)
+	itarget := []byte{0x08, 0x10, 0x40, 0xFF}[rng.IntN(4)]
+	env.Net.InitialTarget = types.BlockID{itarget}
+	t := chainlab.NewTree(env, rng)
+	prof := chainlab.Profile{MaxTxns: 3}
+	cc := clusterCase{Stream: stream, Regime: regime, Params: p, Special: "tightcap", InitialTarget: itarget, MaxOut: 8}
+	cc.Cap = 1 + rng.IntN(2)
+	cc.Topology = []string{"", "in-chain", "in-tree"}[cc.Cap]
+	if cc.Cap == 1 {
+		cc.N = 3 + rng.IntN(3)
+	} else {
+		cc.N = 4 + rng.IntN(3)
+	}
+	switch regime {
+	case "mix":
+		cc.TrunkLen = max(1, []int{int(p.Allow) - 1, int(p.Allow) + 1, int(p.Require), int(p.Require) + 8}[rng.IntN(4)])
+	default:
+		cc.TrunkLen = 2 + rng.IntN(20)
+	}
+	trunk := p2plab.GrowMixed(t, t.Root, cc.TrunkLen, 2, prof)
+	// node i dials its parent (i-1)/cap; parent edges are created first, so an
+	// inner node already holds its outbound connection when its children arrive
+	// (PRNG: in half of the cases the order is shuffled instead)
+	for i := 1; i < cc.N; i++ {
+		cc.Edges = append(cc.Edges, [2]int{i, (i - 1) / cc.Cap})
+	}
+	if rng.IntN(2) == 0 {
+		rng.Shuffle(len(cc.Edges), func(i, j int) { cc.Edges[i], cc.Edges[j] = cc.Edges[j], cc.Edges[i] })
+	}
+	tips := make([]*chainlab.Node, cc.N)
+	for i := range tips {
+		depth := min(cc.TrunkLen, []int{0, 0, 1, 2}[rng.IntN(4)])
+		fork := trunk.Ancestor(trunk.Height - uint64(depth))
+		tips[i] = p2plab.GrowMixed(t, fork, []int{0, 1, 2, 9, 11}[rng.IntN(5)], 3, prof)
+	}
+	cc.Winner = []int{0, cc.N - 1}[rng.IntN(2)]
+	var others []*chainlab.Node
+	for i, x := range tips {
+		if i != cc.Winner {
+			others = append(others, x)
+		}
+	}
+	tips[cc.Winner] = p2plab.Heavier(t, tips[cc.Winner], 1+rng.IntN(3), prof, others...)
+	for i, x := range tips {
+		fh := chainlab.CommonAncestor(x, trunk).Height
+		cc.Branches = append(cc.Branches, branchDesc{Node: i, ForkHeight: fh, Len: int(x.Height - fh), TipHeight: x.Height, TipNode: x.Idx, Checkpoint: -1, MaxSend: 100})
+	}
+	return cc, t, tips, make([]*chainlab.Node, cc.N)
+}
+
 func genCluster(r *mon.Run, stream uint64, special string) (clusterCase, *chainlab.Tree, []*chainlab.Node, []*chainlab.Node) {
+	if special == "tightcap" {
+		return genTightCap(r, stream)
+	}
 	if special == "shortheaders" {
 		return genShortHeaders(r, stream)
 	}
@@ -476,13 +546,17 @@ func runCluster(r *mon.Run, stream uint64, special string) {
 	rng := rand.New(rand.NewPCG(uint64(r.Seed)+77, stream))
 	slot := p2plab.NextSlot()
 	act := p2plab.NewActivity()
+	maxOut := cc.Cap
+	if cc.MaxOut > 0 {
+		maxOut = cc.MaxOut
+	}
 	nodes := make([]*p2plab.Node, cc.N)
 	for i := 0; i < cc.N; i++ {
 		o := p2plab.NodeOpts{
 			Activity: act,
 			Name:     fmt.Sprintf("n%d", i), IP: p2plab.HonestIP(slot, i), Tree: t, Tip: tips[i], Checkpoint: cps[i],
 			SyncInterval: time.Duration(50+rng.IntN(50)) * time.Millisecond, DiscoveryInterval: time.Hour,
-			RPCTimeout: 3 * time.Second, MaxInbound: cc.Cap, MaxOutbound: cc.Cap, MaxSendBlocks: cc.Branches[i].MaxSend,
+			RPCTimeout: 3 * time.Second, MaxInbound: cc.Cap, MaxOutbound: maxOut, MaxSendBlocks: cc.Branches[i].MaxSend,
 			Jitter: time.Duration(cc.JitterUS) * time.Microsecond, JitterSeed: rng.Uint64(),
 		}
 		if cc.Discovery {
@@ -538,6 +612,7 @@ func runCluster(r *mon.Run, stream uint64, special string) {
 		}
 		return nodes[e[0]].Connect(lab.Addr)
 	}
+	var accepted [][2]int
 	for _, e := range cc.Edges {
 		time.Sleep(time.Duration(rng.IntN(30)) * time.Millisecond)
 		if lab != nil && (e[0] == cc.N || e[1] == cc.N) {
@@ -548,13 +623,62 @@ func runCluster(r *mon.Run, stream uint64, special string) {
 			lab.Call(&gateway.RPCRelayV2Header{Header: winner.Block.Header()}, 2*time.Second)
 			continue
 		}
-		if err := nodes[e[0]].Connect(nodes[e[1]].Addr); err != nil {
+		if err := nodes[e[0]].Connect(nodes[e[1]].Addr); err == nil {
+			accepted = append(accepted, e)
+		} else {
 			r.Count("initial_connect_errors", 1)
 			msg := err.Error()
 			if i := strings.LastIndex(msg, ": "); i >= 0 {
 				msg = msg[i+2:]
 			}
 			r.Count("initial_connect_error:"+msg, 1)
+		}
+	}
+	// a connection that was accepted and is within both endpoints' configured
+	// caps (inbound and outbound counted separately, as the option names say)
+	// must be kept: after a settle period it has to be in both Peers() lists
+	var dropped []string
+	if !cc.Discovery {
+		indeg, outdeg := make([]int, cc.N+1), make([]int, cc.N+1)
+		for _, e := range cc.Edges {
+			outdeg[e[0]]++
+			indeg[e[1]]++
+		}
+		var check [][2]int
+		for _, e := range accepted {
+			if indeg[e[1]] <= cc.Cap && outdeg[e[0]] <= maxOut {
+				check = append(check, e)
+			}
+		}
+		present := func(e [2]int) bool {
+			return nodes[e[0]].HasPeer(nodes[e[1]].Addr) && nodes[e[1]].HasPeer(nodes[e[0]].Addr)
+		}
+		// settle: at least 1 s and 20 polling iterations; an edge still missing
+		// is polled for up to 4 s (60 iterations) more before it counts as dropped
+		for i := 0; i < 20; i++ {
+			time.Sleep(50 * time.Millisecond)
+		}
+		for _, e := range check {
+			ok := present(e)
+			for i := 0; i < 60 && !ok; i++ {
+				time.Sleep(70 * time.Millisecond)
+				ok = present(e)
+			}
+			r.Count("accepted_connections_within_caps_checked", 1)
+			if !ok {
+				var pa, pb []string
+				for _, p := range nodes[e[0]].S.Peers() {
+					pa = append(pa, p.String())
+				}
+				for _, p := range nodes[e[1]].S.Peers() {
+					pb = append(pb, p.String())
+				}
+				dropped = append(dropped, fmt.Sprintf("n%d -> n%d (dialer's peers %v, listener's peers %v, listener inbound cap %d, designed inbound %d)", e[0], e[1], pa, pb, cc.Cap, indeg[e[1]]))
+			}
+		}
+		if len(dropped) > 0 && honestBanClass(nodes) == "" {
+			fmt.Printf("note: C12 stream=%d accepted-connection-dropped-within-caps %v\n", stream, dropped)
+			r.Violation("accepted-connection-dropped-within-caps", "a connection whose Connect() succeeded and that is within both endpoints' configured inbound/outbound caps was no longer present in both peer lists after the settle period", cc, map[string]any{"dropped_edges": dropped, "edges": cc.Edges})
 		}
 	}
 	start := time.Now()
@@ -681,6 +805,12 @@ func runCluster(r *mon.Run, stream uint64, special string) {
 	if cc.Discovery {
 		r.Count("clusters_with_discovery", 1)
 	}
+	if cc.Special == "tightcap" {
+		r.Count("clusters_with_tight_inbound_cap_and_outbound_connection", 1)
+		if converged {
+			r.Count("clusters_with_tight_inbound_cap_converged", 1)
+		}
+	}
 	if lab != nil {
 		r.Count("clusters_with_short_header_batches", 1)
 		r.Count("short_header_batches_served", lab.Counter("short-header-batches"))
@@ -737,6 +867,8 @@ func runCluster(r *mon.Run, stream uint64, special string) {
 		vsig := "no-convergence-within-90s"
 		if cls := honestBanClass(nodes); cls != "" {
 			vsig += ":honest-peer-banned:" + cls
+		} else if len(dropped) > 0 {
+			vsig += ":accepted-connection-dropped-within-caps"
 		} else if v1Unpropagated {
 			// every stuck node: v1-only gap to the winner, all peers synced without
 			// error, a peer exactly one v1 block ahead (see stuckOnUnpropagatedV1Tip)
